@@ -8,9 +8,17 @@ flagged and how the values are stored (which `drop_rows` overload / encoder they
 the surviving row positions per part, the output index, the final content of the caller's set, or the
 error kind. The implementation's kept positions are read off a row-id column (`rid`) that every part carries.
 
+Histories (`kind = "history"`): ONE materializer object receives 2-3 `get_model_matrix` calls (formulas that share
+factors, or the spec an earlier call returned; per call its own na_action, output type and caller drop set). Every call
+is observed like a single call, and next to it the same call on a materializer object made for it. The model side is
+`Model.NullsHist.runHistory` (the object's `factor_cache` / `encoded_cache` are state; theorem `materializer_reuse`).
+
 Oracle (implementation only, plain Python): the three statements of the property, with "null" decided by an
 independent per-cell definition (None / NaN / pandas.NA / NaT in the evaluated factor values), plus
-(stateless formulas) equality of every part with the matrix built from the sub-frame of the expected rows.
+(stateless formulas) equality of every part with the matrix built from the sub-frame of the expected rows. For a history the three
+statements are demanded of EVERY call on the reused object (with that call's factors and that call's drop set), and the
+rows, labels, cell values, drop set and null error of each call are compared with those of the same call on a new object
+(whose equality with the sub-frame matrix is what the single-call stream checks).
 """
 from __future__ import annotations
 
@@ -30,6 +38,9 @@ REQUIRED_THEOREMS = [
     "encoders_consistent",
     "per_part_calls",
     "entry_points_forward",
+    "materializer_reuse",
+    "reuse_drop_exact",
+    "reuse_raise_ignore",
 ]
 TRUSTED = [
     "parameter: which cells `find_nulls` flags for an evaluated factor (forwarded from the implementation per case; "
@@ -39,6 +50,9 @@ TRUSTED = [
     "modelled, not verified: pandas/numpy/narwhals/scipy row selection primitives themselves (boolean mask indexing, "
     "numpy.delete, Index.delete, narwhals filter), modelled as positional filters; factor evaluation; the encoders' values "
     "(only their row handling is modelled)",
+    "histories: the model keeps the materializer object's factor_cache / encoded_cache as state (keys = factor expressions; "
+    "the (expr, reduced_rank) refinement of the encoded_cache key is not modelled — unobservable when the caches are emptied "
+    "per call, theorem materializer_reuse); transform/encoder state carried by a replayed spec is not modelled (C04/C18)",
     "not modelled: scalar (constant) factor values that are NaN (`find_nulls` raises for them), drop positions that are "
     "negative, frames whose transforms return a Series with an index different from the data's",
 ]
@@ -57,6 +71,10 @@ RULE = (
     "terms over names, I(), {}, C(), C(, contr.sum), hashed(), center, scale, poly, bs, interactions; "
     "x na_action x caller drop set (none / empty / random subset) x entry point (sugar, formula, modelspec +-overrides "
     "+-fitted, modelspecs +-overrides +-fitted, materializer, one-call-per-part) x output x materializer. "
+    "PLUS histories on one materializer object (PandasMaterializer / NarwhalsMaterializer over pandas or pyarrow data): 2-3 "
+    "get_model_matrix calls, each with its own formula (terms drawn from a pool shared by the history, so factors recur; or "
+    "the ModelSpec(s) an earlier call returned), na_action, output type and caller drop set (none / empty / random subset); "
+    "every call observed on the reused object and on a new one. "
     "non-trivial = drop policy, at least one row removed and one kept; distinct by canonical JSON"
 )
 
@@ -108,27 +126,70 @@ def gen_term(rng, allow_stateful=True):
     return rng.choice(pool)
 
 
-def gen_part(rng):
+def gen_part(rng, pool=None):
     terms = ["rid"]
     for _ in range(rng.choice([0, 1, 1, 2, 2, 3])):
-        t = gen_term(rng, allow_stateful=rng.random() < 0.3)
+        if pool and rng.random() < 0.75:
+            t = rng.choice(pool)  # (histories) a term other calls on the same object use as well
+        else:
+            t = gen_term(rng, allow_stateful=rng.random() < 0.3)
         if t not in terms:
             terms.append(t)
     pre = rng.choice(["", "", "", "0 + ", "-1 + "])
     return pre + " + ".join(terms)
 
 
-def gen_formula(rng):
+def gen_formula(rng, pool=None):
     r = rng.random()
     if r < 0.5:
-        return gen_part(rng), 1
+        return gen_part(rng, pool), 1
     if r < 0.75:
-        return gen_part(rng) + " ~ " + gen_part(rng), 2
+        return gen_part(rng, pool) + " ~ " + gen_part(rng, pool), 2
     if r < 0.83:
-        return gen_part(rng) + " ~ 0", 2
+        return gen_part(rng, pool) + " ~ 0", 2
     if r < 0.93:
-        return gen_part(rng) + " ~ " + gen_part(rng) + " | " + gen_part(rng), 3
-    return gen_part(rng) + " | " + gen_part(rng), 2
+        return gen_part(rng, pool) + " ~ " + gen_part(rng, pool) + " | " + gen_part(rng, pool), 3
+    return gen_part(rng, pool) + " | " + gen_part(rng, pool), 2
+
+
+def gen_caller(rng, n):
+    r = rng.random()
+    if r < 0.3:
+        return None
+    if r < 0.4:
+        return []
+    return sorted(set(rng.randrange(n) for _ in range(rng.randint(1, max(1, n // 2)))))
+
+
+def gen_history(rng, tier):
+    """2-3 get_model_matrix calls on ONE materializer object: formulas over a shared pool of terms (or the spec an
+    earlier call returned), each call with its own null policy, output type and caller drop set"""
+    n = rng.randint(2, 12) if rng.random() < 0.85 else rng.randint(1, 4)
+    frame = "arrow" if rng.random() < 0.15 else "pandas"
+    index = gen_index(rng, n) if frame == "pandas" else {"kind": "default", "labels": list(range(n))}
+    mat = "narwhals" if frame == "arrow" else rng.choice(["pandas", "pandas", "narwhals"])
+    outs = ["pandas", "pandas", "numpy", "sparse"] + (["narwhals"] if mat == "narwhals" else [])
+    pool = []
+    for _ in range(rng.randint(2, 5)):
+        t = gen_term(rng, allow_stateful=rng.random() < 0.2)
+        if t not in pool:
+            pool.append(t)
+    calls = []
+    for i in range(rng.choice([2, 2, 3])):
+        replay = None
+        if i > 0 and rng.random() < 0.25:
+            replay = rng.randrange(i)  # pass the ModelSpec(s) that call `replay` returned (its formula when it raised)
+            formula = calls[replay]["formula"]
+        else:
+            formula, _ = gen_formula(rng, pool)
+        calls.append(dict(
+            formula=formula,
+            replay=replay,
+            policy=rng.choice(["drop", "drop", "drop", "raise", "ignore"]),
+            caller=gen_caller(rng, n),
+            output=rng.choice(outs),
+        ))
+    return dict(kind="history", nrows=n, data=gen_data(rng, n), index=index, frame=frame, mat=mat, calls=calls)
 
 
 def gen_case(rng, tier, malformed=False):
@@ -181,9 +242,14 @@ def cases(rng, tier):
         yield gen_case(rng, tier)
     for _ in range(max(6, n // 40)):
         yield gen_case(rng, tier, malformed=True)
+    for _ in range({"quick": 90, "thorough": 1200, "search": 60}[tier]):
+        yield gen_history(rng, tier)
 
 
 def describe(c):
+    if c["kind"] == "history":
+        pols = "/".join(k["policy"] + ("*" if k.get("replay") is not None else "") for k in c["calls"])
+        return f"history[{pols}],{c['mat']}/{c['frame']},idx={c['index']['kind']}"
     return f"{c['entry']},{c['policy']},{c['mat']}/{c['frame']},{c['output']},idx={c['index']['kind']},caller={'none' if c['caller'] is None else 'set'}"
 
 
@@ -192,6 +258,8 @@ def _has_null(c):
 
 
 def nontrivial(c):
+    if c["kind"] == "history":
+        return c["nrows"] >= 2 and any(k["policy"] == "drop" and (_has_null(c) or bool(k["caller"])) for k in c["calls"])
     return c["kind"] == "call" and c["policy"] == "drop" and (_has_null(c) or bool(c["caller"])) and c["nrows"] >= 2
 
 
@@ -451,17 +519,21 @@ def expected_rows(c, pr):
     return [i for i in range(c["nrows"]) if i not in bad]
 
 
-def clean_error(c, df, probes):
+def clean_error(c, df, probes, rerun=None):
     """Does the same formula/output/materializer fail even on the frame that consists of just the rows that must
     survive, with no drop set (policy raise; for `ignore` the null rows stay, so policy ignore)? Then the failure
-    has nothing to do with removing rows (e.g. output='narwhals' cannot encode a one-level factor)."""
+    has nothing to do with removing rows (e.g. output='narwhals' cannot encode a one-level factor).
+    `rerun(frame, policy)`: how to repeat the call (default: through the entry point named by the case)."""
     if c["kind"] != "call":
         return None
     mat = c["mat"]
     K = expected_rows(c, probes[mat] if mat in probes else next(iter(probes.values())))
     c2 = dict(c, policy="ignore" if c["policy"] == "ignore" else "raise", caller=None)
     try:
-        run_entry(c2, subframe(df, K), None)  # same entry point, same options, nothing to drop
+        if rerun is not None:
+            rerun(subframe(df, K), c2["policy"])
+        else:
+            run_entry(c2, subframe(df, K), None)  # same entry point, same options, nothing to drop
     except Exception as e:
         return type(e).__name__
     return None
@@ -471,40 +543,40 @@ def is_stateless(c):
     return not any(s in c["formula"] for s in STATEFUL)
 
 
-def impl(c):
-    df = make_frame(c)
-    n = c["nrows"]
+def observe_call(c, df, probes, runner, sub=True, rerun=None, keep=None):
+    """ONE real call — `runner(d)` makes it with `d` as the caller's set object (None: no drop_rows argument) — and what
+    it shows: the error kind, or per part the rows / index / rid column, the caller's set afterwards, and (sub) whether
+    every part equals the matrix built from the sub-frame of the rows that must survive. `keep`: dict that receives the
+    raw result and arrays (not part of the observation)."""
     out = {}
-    # --- probe: evaluated factors (storage, encoder, what find_nulls flags, independent nulls)
-    try:
-        if c["entry"] == "nonjoint":
-            out["probe"] = {"pandas": probe(c, df, "pandas"), "narwhals": probe(c, df, "narwhals")}
-        else:
-            out["probe"] = {c["mat"]: probe(c, df, c["mat"])}
-    except Exception as e:
-        return {"probe_error": type(e).__name__ + ": " + str(e)[:160]}
-    # --- the call
     d = None if c["caller"] is None else set(c["caller"])
     try:
-        res, mats = run_entry(c, df, d)
+        res, mats = runner(d)
     except Exception as e:
         out["error"] = err_kind(e)
         out["msg"] = type(e).__name__ + ": " + str(e)[:160]
-        out["clean_error"] = None if out["error"] == "NullsPresent" else clean_error(c, df, out["probe"])
+        out["clean_error"] = None if out["error"] == "NullsPresent" else clean_error(c, df, probes, rerun)
         return out
     parts, raw = [], []
-    for mm in leaves(res):
-        o, names, arr = observe_part(mm, c["output"])
-        parts.append(o)
-        raw.append((names, arr))
+    try:
+        for mm in leaves(res):
+            o, names, arr = observe_part(mm, c["output"])
+            parts.append(o)
+            raw.append((names, arr))
+    except Exception as e:  # e.g. columns of another output type inside the matrix: no rows can be read off
+        out["error"] = "Other:UnreadableResult"
+        out["msg"] = f"UnreadableResult: what the call returned is not a {c['output']} matrix of numbers ({type(e).__name__}: {str(e)[:100]})"
+        out["clean_error"] = None
+        return out
+    if keep is not None:
+        keep["res"], keep["raw"] = res, raw
     out["parts"] = parts
     out["mats"] = mats
     out["final"] = None if d is None else sorted(int(x) for x in d)
     # --- metamorphic check: the matrix of the sub-frame of the rows that must survive
     out["sub"] = None
-    fitted = c["fitted"] and c["entry"] in ("modelspec", "modelspecs")  # levels then come from the recorded state
-    if c["policy"] == "drop" and c["entry"] != "nonjoint" and c["kind"] == "call" and is_stateless(c) and not fitted:
-        K = expected_rows(c, out["probe"][c["mat"]])
+    if sub and c["policy"] == "drop" and c["entry"] != "nonjoint" and c["kind"] == "call" and is_stateless(c):
+        K = expected_rows(c, probes[c["mat"]])
         try:
             sub = leaves(_mat_class(c["mat"])(subframe(df, K)).get_model_matrix(c["formula"], na_action="raise", output=c["output"]))
             ok = len(sub) == len(raw)
@@ -521,6 +593,90 @@ def impl(c):
         except Exception as e:
             out["sub"] = {"ok": None, "why": "sub-frame run raised " + type(e).__name__ + ": " + str(e)[:100]}
     return out
+
+
+def impl(c):
+    if c["kind"] == "history":
+        return impl_history(c)
+    df = make_frame(c)
+    out = {}
+    # --- probe: evaluated factors (storage, encoder, what find_nulls flags, independent nulls)
+    try:
+        if c["entry"] == "nonjoint":
+            out["probe"] = {"pandas": probe(c, df, "pandas"), "narwhals": probe(c, df, "narwhals")}
+        else:
+            out["probe"] = {c["mat"]: probe(c, df, c["mat"])}
+    except Exception as e:
+        return {"probe_error": type(e).__name__ + ": " + str(e)[:160]}
+    # --- the call
+    fitted = c["fitted"] and c["entry"] in ("modelspec", "modelspecs")  # levels then come from the recorded state
+    out.update(observe_call(c, df, out["probe"], lambda d: run_entry(c, df, d), sub=not fitted))
+    return out
+
+
+def call_case(c, k):
+    """call `k` of a history as a single-call case (entry point: the materializer's method)"""
+    return dict(kind="call", nrows=c["nrows"], data=c["data"], index=c["index"], frame=c["frame"], mat=c["mat"],
+                formula=k["formula"], policy=k["policy"], caller=k["caller"], output=k["output"],
+                entry="materializer", overrides=False, fitted=False)
+
+
+def _same_values(raw_a, raw_b):
+    """do two observed results have the same columns and cell values, part by part?"""
+    if len(raw_a) != len(raw_b):
+        return False
+    for (na, a), (nb, b) in zip(raw_a, raw_b):
+        if na != nb or a.shape != b.shape:
+            return False
+        try:
+            if not numpy.array_equal(a.astype(float), b.astype(float), equal_nan=True):
+                return False
+        except (TypeError, ValueError):
+            if a.tolist() != b.tolist():
+                return False
+    return True
+
+
+def impl_history(c):
+    df = make_frame(c)
+    M = _mat_class(c["mat"])
+    m = M(df)  # THE object: every call of the history is made on it
+    out = {"probes": [], "calls": [], "fresh": [], "replayed": [], "same_values": []}
+    specs = []  # per call: the ModelSpec(s) the object returned (None: the call raised)
+    for k in c["calls"]:
+        ci = call_case(c, k)
+        try:
+            pr = {c["mat"]: probe(ci, df, c["mat"])}
+        except Exception as e:
+            return {"probe_error": type(e).__name__ + ": " + str(e)[:160]}
+        j = k.get("replay")
+        spec = specs[j] if j is not None and specs[j] is not None else k["formula"]
+        replayed = spec is not k["formula"]
+        opts = {"na_action": k["policy"], "output": k["output"]}
+
+        def runner_on(obj, spec=spec, opts=opts):
+            return lambda d: (obj.get_model_matrix(spec, **({} if d is None else {"drop_rows": d}), **opts), None)
+
+        def rerun(df2, policy, spec=spec, k=k):
+            return M(df2).get_model_matrix(spec, na_action=policy, output=k["output"])
+
+        kf, kr = {}, {}
+        fresh = observe_call(ci, df, pr, runner_on(M(df)), sub=False, rerun=rerun, keep=kf)
+        # (no sub-frame comparison here: the values are compared with those of the new object, whose agreement with the
+        #  sub-frame matrix is what the single-call stream checks)
+        reused = observe_call(ci, df, pr, runner_on(m), sub=False, rerun=rerun, keep=kr)
+        specs.append(kr["res"].model_spec if "res" in kr else None)
+        out["probes"].append(pr)
+        out["calls"].append(reused)
+        out["fresh"].append(fresh)
+        out["replayed"].append(bool(replayed))
+        out["same_values"].append(_same_values(kf["raw"], kr["raw"]) if "raw" in kf and "raw" in kr else None)
+    return out
+
+
+def history_calls(c, o):
+    """[(index, single-call case, single-call observation)] of a history"""
+    return [(i, call_case(c, k), dict(o["calls"][i], probe=o["probes"][i])) for i, k in enumerate(c["calls"])]
 
 
 # ----------------------------------------------------------------------------- request / agree
@@ -540,6 +696,18 @@ def _model_mat(c, m):
 
 
 def request(c, o):
+    if c["kind"] == "history" and not ("harness_exception" in o or "probe_error" in o):
+        calls = []
+        for i, ci, oi in history_calls(c, o):
+            r = _request_call(ci, oi, keys=True)
+            calls.append(dict(policy=r["policy"], output=r["output"], caller=r["caller"], parts=r["parts"]))
+        reset = os.environ.get("VERIF_C06_RESET", "1") != "0"  # 0: the model of the tree that kept its caches between calls
+        return dict(op="history", variant=VARIANT, reset=reset, n=c["nrows"],
+                    labels=[lab(x) for x in c["index"]["labels"]], calls=calls)
+    return _request_call(c, o)
+
+
+def _request_call(c, o, keys=False):
     if "harness_exception" in o or "probe_error" in o:
         return dict(op="noop", n=0, labels=[], policy="drop", output="numpy", entry="materializer", structured=False,
                     overrides=False, joint=True, caller=None, parts=[])
@@ -551,7 +719,8 @@ def request(c, o):
         parts.append(dict(
             mat=_model_mat(c, m),
             intercept=p["intercept"],
-            factors=[dict(nulls=pr["factors"][x]["nulls"], store=pr["factors"][x]["store"], enc=pr["factors"][x]["enc"])
+            factors=[dict(nulls=pr["factors"][x]["nulls"], store=pr["factors"][x]["store"], enc=pr["factors"][x]["enc"],
+                          **({"key": x} if keys else {}))
                      for x in p["exprs"]],
         ))
     e = c["entry"]
@@ -581,6 +750,18 @@ def agree(c, o, m):
         return "driver: " + m["driver_error"][:300]
     if "harness_exception" in o or "probe_error" in o:
         return None
+    if c["kind"] == "history":
+        if len(m.get("calls", [])) != len(c["calls"]):
+            return f"model answered {len(m.get('calls', []))} calls of {len(c['calls'])}"
+        for (i, ci, oi), mi in zip(history_calls(c, o), m["calls"]):
+            why = _agree_call(ci, oi, mi)
+            if why:
+                return f"call {i + 1} of {len(c['calls'])} on one materializer object (`{ci['formula']}`, {ci['policy']}): {why}"
+        return None
+    return _agree_call(c, o, m)
+
+
+def _agree_call(c, o, m):
     if c["kind"] == "oor" and "error" in o and "error" in m:
         return None  # positions outside the frame: which of IndexError / length mismatch comes first is not modelled
     if o.get("error", "").startswith("Other:") and o.get("clean_error"):
@@ -616,7 +797,48 @@ def _inc(xs):
 def oracle(c, o):
     if "harness_exception" in o:
         return "harness could not run the implementation: " + o["harness_exception"]
-    if "probe_error" in o or c["kind"] != "call":
+    if "probe_error" in o:
+        return None
+    if c["kind"] == "history":
+        return oracle_history(c, o)
+    return _oracle_call(c, o)
+
+
+def oracle_history(c, o):
+    """every call made on the one materializer object must satisfy the property by itself (its own factors, its own
+    caller set), and must show the rows / labels / values / drop set / null error of the call on a new object"""
+    for i, ci, oi in history_calls(c, o):
+        head = (f"call {i + 1} of {len(c['calls'])} on ONE {c['mat']} materializer object "
+                f"(`{ci['formula']}`{' as the spec an earlier call returned' if o['replayed'][i] else ''}, "
+                f"na_action={ci['policy']}, drop_rows={ci['caller']}, output={ci['output']}; earlier calls: "
+                + "; ".join(f"`{k['formula']}` {k['policy']}" for k in c["calls"][:i]) + "): ")
+        why = _oracle_call(ci, oi)
+        if why:
+            return head + why
+        f = o["fresh"][i]
+        fe, re_ = f.get("error"), oi.get("error")
+        if fe is not None and fe != "NullsPresent":
+            continue  # a new object cannot build this matrix either, for reasons other than nulls: nothing to compare
+        if fe != re_:
+            return head + (f"a new materializer object {'raises ' + f.get('msg', '') if fe else 'succeeds'}, "
+                           f"the reused one {'raises ' + oi.get('msg', '') if re_ else 'succeeds'}")
+        if fe:
+            continue
+        if ci["policy"] == "ignore" and ci["caller"]:
+            continue  # (the property text does not say what happens to the caller's rows under `ignore`)
+        for j, (a, b) in enumerate(zip(oi["parts"], f["parts"])):
+            for what in ("nrows", "kept", "index"):
+                if a[what] != b[what]:
+                    return head + f"part {j}: {what} is {a[what]}, a new materializer object gives {b[what]}"
+        if oi["final"] != f["final"]:
+            return head + f"caller's drop set afterwards is {oi['final']}, with a new materializer object {f['final']}"
+        if o["same_values"][i] is False:
+            return head + "the rows are those a new materializer object returns, but columns or cell values differ from them"
+    return None
+
+
+def _oracle_call(c, o):
+    if c["kind"] != "call":
         return None
     n, pol = c["nrows"], c["policy"]
     caller = set(c["caller"] or [])
@@ -705,7 +927,9 @@ LEVEL_TEXT = (
     "and entry points, that under the drop policy every part consists of exactly the rows not null in any factor and not "
     "listed by the caller, in order, with the labels of those rows as index; that the caller's set ends up as caller ∪ nulls "
     "= the rows removed; raise errors iff a null exists; ignore removes only the caller's rows; all encoders remove the same "
-    "positions. The model is tied to the code by a differential correspondence on every run; an independent oracle "
+    "positions; and that for EVERY history of calls on one materializer object, from any cache content, each call gives "
+    "what the same call on a new object gives (materializer_reuse), hence obeys the same row rule (reuse_drop_exact, "
+    "reuse_raise_ignore). The model is tied to the code by a differential correspondence on every run; an independent oracle "
     "re-checks the property on the real output."
 )
 LEVEL_NOTE = (
